@@ -833,9 +833,11 @@ Definition expected_reply (limit : Z) (password : bytes) (args : list bytes) : o
       else if N.eqb t ReqAuth then
         Some (match password with [] => ErrAuthNeedNtPassword | _ => if beqb password key then StatusOK else ErrAuthInvalidPassword end)
       else if N.eqb t ReqMget then
-        if existsb (fun k => find_sub k (bs "err")) keys then Some ErrUnKnownMget
+        if existsb (fun k => find_sub k (bs "err") || find_sub k (bs "noauth"))%bool keys then Some ErrUnKnownMget
         else Some ([42] ++ itoa_nat (length keys) ++ crlf ++
                    concat (map (fun k => if find_sub k (bs "nil") then bs "$-1" ++ crlf else conv_value k) keys))
+      else if ((N.eqb t ReqDel || N.eqb t ReqMset)%bool && existsb (fun k => find_sub k (bs "err") || find_sub k (bs "noauth"))%bool keys)%bool
+      then None      (* a node answers one fragment with an error: the whole request fails with an error of the proxy *)
       else if N.eqb t ReqDel then Some ([58] ++ itoa_nat (length keys) ++ crlf)
       else if (N.eqb t ReqMset || N.eqb t ReqSet)%bool then Some StatusOK
       else if find_sub (if (N.eqb t ReqEval || N.eqb t ReqEvalsha)%bool then nth 3 args [] else key) (bs "noauth") then
